@@ -8,19 +8,19 @@ namespace RtenVerif.ControlFlow
 
 variable {P V : Type}
 
-theorem steps_sim (S : Sem P V) (hS : ∀ k, S.inPlaceIdx k = []) (f : Nat) (rec : Runner P V)
+theorem steps_sim (S : Sem P V) (hS : ∀ k, (S.inPlaceIdx k).length ≤ 1) (f : Nat) (rec : Runner P V)
     (ev : Env V → Graph P V → List V → Except Err (List V)) (href : RefHyp f rec ev)
-    (g : Graph P V) (views : Env V) (E : List (Frame V)) (σp : Env V) (ctx : Ctx g views E σp) :
+    (g : Graph P V) (views : Env V) (σp : Env V) (ctx : Ctx g views σp) :
     ∀ (rest : List (Op P V)) (st : St V) (b : Env V),
-      (∀ op, op ∈ rest → op ∈ g.ops ∧ OpWf f g op) → Inv g views E σp rest st b →
-      Rel (fun st' σ' => ∃ b', σ' = b' ++ σp ∧ Inv g views E σp [] st' b')
+      (∀ op, op ∈ rest → op ∈ g.ops ∧ OpWf f g op) → Inv g views σp rest st b →
+      Rel (fun st' σ' => ∃ b', σ' = b' ++ σp ∧ Inv g views σp [] st' b')
         (stepOps S rec g views st rest) (evalOps S false ev (b ++ σp) rest)
   | [], st, b, _, inv => by
     simp only [stepOps, evalOps, Rel]
     exact ⟨b, rfl, inv⟩
   | op :: rest, st, b, hops, inv => by
     have hop := hops op List.mem_cons_self
-    have hstep := step_sim S hS f rec ev href g views E σp ctx op hop.1 hop.2 rest st b inv
+    have hstep := step_sim S hS f rec ev href g views σp ctx op hop.1 hop.2 rest st b inv
     simp only [stepOps, evalOps]
     cases h1 : stepOp S rec g views st op with
     | error e1 =>
@@ -35,7 +35,7 @@ theorem steps_sim (S : Sem P V) (hS : ∀ k, S.inPlaceIdx k = []) (f : Nat) (rec
         simp only [Rel] at hstep
         obtain ⟨b', hσ, inv'⟩ := hstep
         subst hσ
-        exact steps_sim S hS f rec ev href g views E σp ctx rest st' b'
+        exact steps_sim S hS f rec ev href g views σp ctx rest st' b'
           (fun o ho => hops o (List.mem_cons_of_mem _ ho)) inv'
 
 theorem owned_borrowed_disjoint : ∀ (ins : List Nat) (args : List (Bool × V)) (n : Nat), ins.Nodup →
@@ -65,13 +65,13 @@ theorem owned_borrowed_disjoint : ∀ (ins : List Nat) (args : List (Bool × V))
 
 /-- T1 on the fragment: for every fuel, graph, argument list (any owned/borrowed split), capture
 environment and enclosing naive environment that agree on the graph's free names. -/
-theorem runPlan_refines (S : Sem P V) (hS : ∀ k, S.inPlaceIdx k = []) :
+theorem runPlan_refines (S : Sem P V) (hS : ∀ k, (S.inPlaceIdx k).length ≤ 1) :
     ∀ f, RefHyp f (runPlan S f) (evalG S false f)
   | 0 => by
     intro g args E σ hwf
     simp [wfG] at hwf
   | f + 1 => by
-    intro g args E σ hwf hshadow hfree
+    intro g args E σ hwf hshadow hhead hfree
     have ih := runPlan_refines S hS f
     obtain ⟨hnd, hond, hout, hops⟩ := wfG_succ f g hwf
     have hind : g.inputs.Nodup := by
@@ -85,8 +85,8 @@ theorem runPlan_refines (S : Sem P V) (hS : ∀ k, S.inPlaceIdx k = []) :
       intro n h; simp only [Graph.defs, List.mem_append]; left; left; exact h
     have hdefs_c : ∀ n, n ∈ g.consts.map (·.1) → n ∈ g.defs := by
       intro n h; simp only [Graph.defs, List.mem_append]; left; right; exact h
-    have ctx : Ctx g (borrowedArgs g.inputs args ++ g.consts) E σ := by
-      refine ⟨hnd, ?_, fun n hn => (hshadow n hn).1, fun n hn => (hshadow n hn).2⟩
+    have ctx : Ctx g (borrowedArgs g.inputs args ++ g.consts) σ := by
+      refine ⟨hnd, ?_, fun n hn => (hshadow n hn).2⟩
       intro n hn
       rw [look_append] at hn
       cases hb : look (borrowedArgs g.inputs args) n with
@@ -94,10 +94,10 @@ theorem runPlan_refines (S : Sem P V) (hS : ∀ k, S.inPlaceIdx k = []) :
       | none =>
         rw [hb] at hn
         exact List.mem_append_right _ (key_of_look _ _ hn)
-    have inv0 : Inv g (borrowedArgs g.inputs args ++ g.consts) E σ g.ops
+    have inv0 : Inv g (borrowedArgs g.inputs args ++ g.consts) σ g.ops
         { temp := ownedArgs g.inputs args, rc := rcInit g, env := E }
         (g.inputs.zip (args.map (·.2)) ++ g.consts) := by
-      refine ⟨rfl, rcInv_init g _ _, ?_, ?_, ?_, ?_⟩
+      refine ⟨fun n hn => (hshadow n hn).1, hhead, rcInv_init g _ _, ?_, ?_, ?_, ?_⟩
       · intro n hn
         simp only [Graph.valueDefs, List.mem_append]
         left; exact look_ownedArgs_key _ _ _ hn
@@ -147,7 +147,7 @@ theorem runPlan_refines (S : Sem P V) (hS : ∀ k, S.inPlaceIdx k = []) :
               by_cases hd : n ∈ g.defs
               · rw [(hshadow n (defs_sub_allDefs g n hd)).1, (hshadow n (defs_sub_allDefs g n hd)).2]
               · exact hfree n hd hneed
-    have hsim := steps_sim S hS f (runPlan S f) (evalG S false f) ih g _ E σ ctx g.ops _ _
+    have hsim := steps_sim S hS f (runPlan S f) (evalG S false f) ih g _ σ ctx g.ops _ _
       (fun op hop => ⟨hop, hops op hop⟩) inv0
     simp only [runPlan, evalG, List.length_map]
     by_cases hlen : (args.length != g.inputs.length) = true
@@ -173,9 +173,9 @@ theorem runPlan_refines (S : Sem P V) (hS : ∀ k, S.inPlaceIdx k = []) :
           apply collectOutputs_eq _ _ _ g.outputs st'.temp hond
           intro n hn
           have hag := inv'.agree n (Or.inr hn)
-          have hE : getInput E n = none := (hshadow n (defs_sub_allDefs g n (hout n hn))).1
+          have hE : getInput st'.env n = none := inv'.shadowE n (defs_sub_allDefs g n (hout n hn))
           unfold opLookup at hag
-          rw [inv'.env, hE] at hag ⊢
+          rw [hE] at hag ⊢
           rw [← hag]
           cases look (borrowedArgs g.inputs args ++ g.consts) n <;> cases look st'.temp n <;> rfl
 
